@@ -780,6 +780,17 @@ def pairStep (d : Option PairDesc) : PairEvent → Option PairDesc
 /-- the fields of a docstring in source order -/
 def runPair (init : Option PairDesc) (evs : List PairEvent) : Option PairDesc := evs.foldl pairStep init
 
+/-- `_report_duplicate` (08a4c10): the handler reports the field when the entry already holds a text of that kind
+written in the docstring (`init = none`: no annotation) -/
+def pairDup (d : Option PairDesc) : PairEvent → Bool
+  | .desc _ => (d.bind (·.body)).isSome
+  | .type _ => (d.bind (·.type)).isSome
+
+/-- how many fields of the sequence are reported as duplicates -/
+def pairDupCount : Option PairDesc → List PairEvent → Nat
+  | _, [] => 0
+  | d, e :: es => (if pairDup d e then 1 else 0) + pairDupCount (pairStep d e) es
+
 /-- the field is not lost: displayed under a heading, given to an attribute, or reported -/
 def Outcome.kept (o : Outcome) : Bool :=
   o.modelled && (o.heading.isSome || (o.toAttr && o.attrShown) || o.reported)
@@ -833,7 +844,7 @@ structure Desc where
   origin : Option Origin
   deriving DecidableEq, Repr
 
-inductive ReportKind | duplicate | notFound | asKeyword
+inductive ReportKind | duplicate | notFound | asKeyword | duplicateType
   deriving DecidableEq, Repr
 
 /-- what `resolve_types` needs to know about the documented function -/
@@ -875,7 +886,11 @@ def step (fh : FH) : Event → FH
   | .type n t =>
     -- handle_type, Function branch
     let rep := if !dictHas fh.types n && !fh.descs.any (·.name == n) then [(ReportKind.notFound, n)] else []
-    { fh with types := dictSet fh.types n (some ⟨t, .doc⟩), reports := fh.reports ++ rep }
+    -- _report_duplicate (08a4c10): an earlier `type` field of the docstring for the same name
+    let dup := match fh.types.lookup n with
+      | some (some pt) => if pt.origin == .doc then [(ReportKind.duplicateType, n)] else []
+      | _ => []
+    { fh with types := dictSet fh.types n (some ⟨t, .doc⟩), reports := fh.reports ++ rep ++ dup }
   | .param n t =>
     let dup := if fh.descs.any (·.name == n) then [(ReportKind.duplicate, n)] else []
     let nf := if !dictHas fh.types n then [(ReportKind.notFound, n)] else []
@@ -1002,9 +1017,12 @@ def handle (docHasBody : Bool) (fields : List PField) : PState :=
 /-- `ensure_parsed_docstring(sub)` when `sub` has no docstring of its own: `parse_docstring(sub, doc, source)` on the
 source TEXT — every field is there for `FieldHandler` (the routing of `_handlePropertyDef` concerns the defining
 property only) -/
-def inheritedView (docHasBody : Bool) (fields : List PField) : PState :=
-  -- when a `@return` became the description, `_handlePropertyDef` set `attr.docstring = ''`: `get_docstring` then
-  -- finds an empty docstring on the source and the inheriting property gets nothing at all
+def inheritedView (docHasBody : Bool) (fields : List PField) : PState := ⟨docHasBody, none, none, fields⟩
+
+/-- before 5a184d3 (kept for the historical counterexample): when a `@return` became the description,
+`_handlePropertyDef` set `attr.docstring = ''`, `get_docstring` then found an empty docstring on the source and the
+inheriting property got nothing at all -/
+def inheritedViewOld (docHasBody : Bool) (fields : List PField) : PState :=
   if (handle docHasBody fields).description.isSome then ⟨false, none, none, []⟩
   else ⟨docHasBody, none, none, fields⟩
 
@@ -1049,6 +1067,10 @@ structure AState where
   attrs : List (Nat × AttrV)
   /-- indices of the fields reported with "Missing field name" -/
   missing : List Nat
+  /-- `seen` (08a4c10): (name, is a type field) of the fields handled so far -/
+  seen : List (Nat × Bool) := []
+  /-- indices of the fields reported with "… was already given, the earlier text is not displayed" -/
+  duplicates : List Nat := []
   deriving Repr
 
 def astep (st : AState) (i : Nat) (f : AField) : AState :=
@@ -1058,14 +1080,16 @@ def astep (st : AState) (i : Nat) (f : AField) : AState :=
   | some n =>
     let cur := (st.attrs.lookup n).getD ⟨none, none, false⟩
     let upd : AttrV := if f.tag = .type then { cur with type := some f.text } else { cur with doc := some f.text, hasKind := true }
-    { st with attrs := dictSet st.attrs n upd }
+    let key := (n, decide (f.tag = .type))
+    { st with attrs := dictSet st.attrs n upd, seen := st.seen ++ [key],
+              duplicates := if st.seen.contains key then st.duplicates ++ [i] else st.duplicates }
 
 def runFrom (st : AState) : Nat → List AField → AState
   | _, [] => st
   | i, f :: fs => runFrom (astep st i f) (i + 1) fs
 
 /-- `extract_fields(obj)` with the attributes the AST builder already created for the body -/
-def extract (existing : List (Nat × AttrV)) (fields : List AField) : AState := runFrom ⟨existing, []⟩ 0 fields
+def extract (existing : List (Nat × AttrV)) (fields : List AField) : AState := runFrom ⟨existing, [], [], []⟩ 0 fields
 
 /-- `get_parsed_type(attr)`: `parsed_type`, else the last `type` field of the attribute's own docstring
 (87738b5), else the annotation -/
